@@ -109,6 +109,14 @@ def main(argv=None):
         if a.get('digest') != b.get('digest') and a.get('status') == 'ok' and b.get('status') == 'ok':
             nondet.append((i, a.get('digest'), b.get('digest')))
 
+    # per-plan digests for the determinism self-test (tools/determinism.py): written only on request
+    dig_path = os.environ.get('ANDES_DST_DIGESTS')
+    if dig_path:
+        with open(dig_path, 'w') as f:
+            json.dump([{'i': i, 'status': (r or {}).get('status'), 'digest': (r or {}).get('digest'),
+                        'classes': sorted(core.vclass(x) for x in (r or {}).get('violations', []))}
+                       for i, r in enumerate(results[:n_main])], f)
+
     # ------------------------------------------------------------------ aggregate coverage
     sigs = {}
     probes, faults = {}, {}
